@@ -27,12 +27,14 @@ ENDINGS = [
     'hard_setup', 'hard_before_assert', 'hard_assert', 'hard_cleanup', 'hard_act',
     'missing_include', 'preproc_fail', 'preproc_nonexec',
     'no_case_file', 'unknown_option', 'bad_utf8',
+    'suite_syntax_error', 'suite_missing_include',
 ]
 CORE_RCS = [0, 1, 2, 32, 33, 64, 65, 127, 128, 129, 255]
 OUTPUTS = [('', ''), ('out text\n', 'err text\n'), ('no final newline', 'e'), ('l1\nl2\n', '')]
 
 # where the ending takes effect:  parse < conf < validation < execution
-_PARSE_TIME = {'syntax_instr', 'syntax_unknown_instr', 'unknown_phase', 'missing_include'}
+_PARSE_TIME = {'syntax_instr', 'syntax_unknown_instr', 'unknown_phase', 'missing_include', 'suite_syntax_error',
+               'suite_missing_include'}
 _BEFORE_PARSE = {'preproc_fail', 'preproc_nonexec', 'no_case_file', 'unknown_option', 'bad_utf8'}
 
 
@@ -120,6 +122,13 @@ def build(case, probe_path):
         argv = ['--preprocessor', './no-such-preprocessor']
     elif e in ('no_case_file', 'unknown_option', 'bad_utf8'):
         as_ = [good]
+    elif e == 'suite_syntax_error':
+        # the suite file found beside the case (exactly.suite) cannot be parsed
+        as_ = [good]
+        files['exactly.suite'] = '[setup]\nno-such-instruction-in-suite x\n'
+    elif e == 'suite_missing_include':
+        as_ = [good]
+        files['exactly.suite'] = '[setup]\nincluding this-file-does-not-exist.xly\n'
     else:
         raise ValueError(e)
     for name, lines in (('setup', setup), ('act', act), ('before-assert', ba), ('assert', as_), ('cleanup', cl)):
@@ -152,8 +161,10 @@ def expected(case):
         return {'kind': 'table', 'ident': 'PRE_PROCESS_ERROR', 'sandbox': False}
     if e in ('syntax_instr', 'syntax_unknown_instr', 'unknown_phase'):
         return {'kind': 'table', 'ident': 'SYNTAX_ERROR', 'sandbox': False}
-    if e == 'missing_include':
+    if e in ('missing_include', 'suite_missing_include'):
         return {'kind': 'table', 'ident': 'FILE_ACCESS_ERROR', 'sandbox': False}
+    if e == 'suite_syntax_error':
+        return {'kind': 'table', 'ident': 'SYNTAX_ERROR', 'sandbox': False}
     # from here the conf phase has run
     if st == 'SKIP':
         return {'kind': 'table', 'ident': 'SKIPPED', 'sandbox': False}
